@@ -139,6 +139,13 @@ func cmdVerify(args []string) {
 			if !o.OK() {
 				bad++
 				fmt.Printf("   FAIL %s [%s %s %dms] path=%s\n", o.Name, o.Ans.Result, o.Ans.Solver, o.Ans.Ms, o.Path)
+				if o.Ans.Result == "error" {
+					raw := o.Ans.Raw
+					if len(raw) > 300 {
+						raw = raw[:300]
+					}
+					fmt.Printf("        solver: %s\n", strings.ReplaceAll(raw, "\n", " | "))
+				}
 			} else if *verbose {
 				fmt.Printf("   ok   %s [%s %s %dms]\n", o.Name, o.Ans.Result, o.Ans.Solver, o.Ans.Ms)
 			}
